@@ -31,6 +31,8 @@ pub struct Cfg {
     stall: Option<(usize, u64, u64)>,
     /// one-slot backend: a hedge clone polled while another attempt is in flight fails readiness
     busy_fails: bool,
+    /// every instance of the backend needs this long to become ready after it was cloned (0 = ready at once)
+    warm_us: u64,
 }
 
 const NEVER: u64 = u64::MAX;
@@ -97,7 +99,8 @@ pub fn gen(rng: &mut Prng) -> Cfg {
     } else {
         None
     };
-    Cfg { max, delay, reqs, stall, busy_fails }
+    let warm_us = if !busy_fails && !matches!(delay, Delay::NoDelay) && rng.chance(0.12) { *rng.pick(&[1000u64, 3000, 7000, 20_000]) } else { 0 };
+    Cfg { max, delay, reqs, stall, busy_fails, warm_us }
 }
 
 fn map_err(e: &HedgeError<PErr>) -> Outcome {
@@ -123,7 +126,13 @@ pub fn run(cfg: &Cfg, seed: u64) -> (Arc<World>, crate::sim::SimStats) {
                 })
             }
         };
-        let probe = if cfg.busy_fails { w.probe(1).with_ready(crate::world::ReadyScript::FailWhileBusy(5)) } else { w.probe(1) };
+        let probe = if cfg.busy_fails {
+            w.probe(1).with_ready(crate::world::ReadyScript::FailWhileBusy(5))
+        } else if cfg.warm_us > 0 {
+            w.probe(1).with_ready(crate::world::ReadyScript::WarmUp(cfg.warm_us))
+        } else {
+            w.probe(1)
+        };
         let svc = b.build().layer(probe);
         let mut end = 0u64;
         for (i, (arrive, script)) in cfg.reqs.iter().enumerate() {
@@ -316,7 +325,7 @@ pub fn judge(cfg: &Cfg, log: &[Rec]) -> Report {
             other => rep.violate(format!("C12:{mode}:unexpected-outcome"), format!("r{id}: resolved with {}", other.short())),
         }
     }
-    rep.bucket(format!("{mode} max={}{}", cfg.max, if cfg.busy_fails { " one-slot-backend" } else { "" }));
+    rep.bucket(format!("{mode} max={}{}", cfg.max, if cfg.busy_fails { " one-slot-backend" } else if cfg.warm_us > 0 { " warm-up-backend" } else { "" }));
     rep.nontrivial = multi && any_fail;
     rep
 }
